@@ -76,10 +76,9 @@ let () = rt "bpd64" delta_encode64 delta_encode64_meta delta_decode64 is_sorted 
 let capd name enc metaf dec =
   register name (fun a ->
     let vs = nlist_of_arg a.(0) in
-    let cap = int_of_string a.(1) in
     let count = List.length vs in
     let (bs, fits) = do_enc enc metaf vs false in
-    if count > 0 && fits then do_dec dec bs cap vs)
+    if Array.length a >= 2 && count > 0 && fits then do_dec dec bs (int_of_string a.(1)) vs)
 
 let () = capd "bp32_cap" encode32 encode32_meta decode32
 let () = capd "bpd32_cap" delta_encode32 delta_encode32_meta delta_decode32
